@@ -671,7 +671,11 @@ fn run_script(path: &str) {
             cmds.clear();
         } else if toks[0] == "end" {
             if let Some((id, ty, disc)) = cur.take() {
-                types::dispatch(&ty, &id, disc, &cmds, &mut t);
+                // a panic that no per-call guard expects ends the case; the driver reports it
+                if guard(|| types::dispatch(&ty, &id, disc, &cmds, &mut t)).is_none() {
+                    t.line("(panic)");
+                    t.line("(endcase)");
+                }
             }
         } else {
             cmds.push(toks.iter().map(|x| x.parse::<u64>().unwrap()).collect());
